@@ -561,7 +561,7 @@ impl RenderTable {
                     sizes[colno + colnum].size += cellsize.size / cell.colspan;
                     sizes[colno + colnum].min_width = max(
                         sizes[colno + colnum].min_width,
-                        cellsize.min_width / cell.colspan,
+                        (cellsize.min_width + cell.colspan - 1) / cell.colspan,
                     );
                 }
                 colno += cell.colspan;
@@ -2233,9 +2233,26 @@ fn render_table_tree<T: Write, D: TextDecorator>(
             // If the cell has a colspan>1, then spread its size between the
             // columns.
             estimate.size /= cell.colspan;
-            estimate.min_width /= cell.colspan;
+            // Round up, so that a cell with content keeps a non-zero minimum.
+            estimate.min_width = (estimate.min_width + cell.colspan - 1) / cell.colspan;
             for i in 0..cell.colspan {
                 col_sizes[colno + i] = (col_sizes[colno + i]).max(estimate);
+            }
+            colno += cell.colspan;
+        }
+    }
+    // The size of a cell spanning only otherwise-empty columns can be rounded
+    // down to nothing above; give it its first column so its text isn't lost.
+    for row in table.rows() {
+        let mut colno = 0;
+        for cell in row.cells() {
+            let estimate = cell.get_size_estimate();
+            if estimate.size > 0
+                && col_sizes[colno..colno + cell.colspan]
+                    .iter()
+                    .all(|est| est.size == 0)
+            {
+                col_sizes[colno] = estimate;
             }
             colno += cell.colspan;
         }
